@@ -306,6 +306,11 @@ func dsScopeGroupOf(s *dsSink, d *dsGen, t *dsTy) {
 				dsBehaviour(s, d, t, orig, other, leg.name+":namespace-first", false)
 			}
 		}
+		for _, problem := range dsLinkProblems(rebuilt) {
+			s.finding(dsFinding{Prop: "C09", What: "the scope rebuilt from the description (" + leg.name + ") is not completely linked: " + problem, Cases: []int{id1}, Schema: t})
+			// a loader that reports success hands out references that denote their objects (C14)
+			s.finding(dsFinding{Prop: "C14", What: "the scope rebuilt from the description (" + leg.name + ") is not completely linked: " + problem, Cases: []int{id1}, Schema: t})
+		}
 		dsBehaviour(s, d, t, orig, rebuilt, leg.name, !hasNS)
 	}
 }
@@ -395,12 +400,26 @@ func dsFixedPlugin() *dsPlugin {
 		return []dsKeyed[*dsSignal]{{id, &dsSignal{ID: id, Data: sc("D" + id)}}}
 	}
 	out := []dsKeyed[*dsOutput]{{"success", &dsOutput{Schema: sc("Out")}}}
+	refScope := func(prefix string, recursive bool) *dsTy {
+		t := &dsTy{T: "scope", Root: prefix + "Root", Objs: []dsNamedObj{
+			{prefix + "Root", &dsTy{T: "obj", ID: prefix + "Root", Props: []dsNamedProp{{"a", &dsProp{Ty: &dsTy{T: "str"}}}, {"n", &dsProp{Ty: &dsTy{T: "int"}}}}}},
+			{prefix + "Item", &dsTy{T: "obj", ID: prefix + "Item", Props: []dsNamedProp{{"y", &dsProp{Ty: &dsTy{T: "str"}, Required: true}}, {"z", &dsProp{Ty: &dsTy{T: "bool"}}}}}}}}
+		dsAddOwnRefs(t, "item", false)
+		if recursive {
+			dsAddOwnRefs(t, "next", true)
+		}
+		return t
+	}
 	return &dsPlugin{Steps: []dsKeyed[*dsStep]{
 		{"handlers-only", &dsStep{ID: "handlers-only", Input: sc("In"), Outputs: out, Handlers: sig("recv")}},
 		{"emitters-only", &dsStep{ID: "emitters-only", Input: sc("In"), Outputs: out, Emitters: sig("emit")}},
 		{"both", &dsStep{ID: "both", Input: sc("In"), Outputs: out, Handlers: sig("recv"), Emitters: sig("emit")}},
 		{"none", &dsStep{ID: "none", Input: sc("In"), Outputs: out}},
 		{"emitters-empty-handlers", &dsStep{ID: "emitters-empty-handlers", Input: sc("In"), Outputs: out, Handlers: []dsKeyed[*dsSignal]{}, Emitters: sig("emit")}},
+		// handles and emits a signal with the same ID; both data scopes hold references (one recursive)
+		{"same-signal-id", &dsStep{ID: "same-signal-id", Input: sc("In"), Outputs: out,
+			Handlers: []dsKeyed[*dsSignal]{{"sig", &dsSignal{ID: "sig", Data: refScope("H", false)}}},
+			Emitters: []dsKeyed[*dsSignal]{{"sig", &dsSignal{ID: "sig", Data: refScope("E", true)}}}}},
 	}}
 }
 
@@ -572,6 +591,28 @@ func dsPluginLegs(s *dsSink, d *dsGen, p *dsPlugin, orig *schema.SchemaSchema, d
 		}
 		if second != want {
 			s.finding(dsFinding{Prop: "C09", What: "plugin schema: describe, rebuild (" + leg.name + "), describe is not a fixed point", Cases: []int{id0, id1}, Schema: p, Detail: []string{want, second}})
+		}
+		// every data scope of the rebuilt schema - inputs, outputs, handler data, emitter data, each on its
+		// own - is completely linked: ValidateReferences is nil, every reference is ready
+		for k, rst := range rebuilt.StepsValue {
+			check := func(label string, sc schema.Type) {
+				for _, problem := range dsLinkProblems(sc) {
+					s.finding(dsFinding{Prop: "C09", What: "the schema rebuilt from the description (" + leg.name + ") is not completely linked: " + label + " of step " + k + ": " + problem,
+						Cases: []int{id1}, Schema: p})
+					s.finding(dsFinding{Prop: "C14", What: "the schema rebuilt from the description (" + leg.name + ") is not completely linked: " + label + " of step " + k + ": " + problem,
+						Cases: []int{id1}, Schema: p})
+				}
+			}
+			check("input", rst.InputValue)
+			for ok, o := range rst.OutputsValue {
+				check("output "+ok, o.SchemaValue)
+			}
+			for hk, h := range rst.SignalHandlersValue {
+				check("data of signal handler "+hk, h.DataSchemaValue)
+			}
+			for ek, e := range rst.SignalEmittersValue {
+				check("data of signal emitter "+ek, e.DataSchemaValue)
+			}
 		}
 		// the rebuilt schema has the steps of the original under the same KEYS (a key need not be the ID)
 		if len(rebuilt.StepsValue) != len(p.Steps) {
